@@ -30,7 +30,7 @@ pub fn run_property(id: &str, args: &Args) -> i32 {
         "C11" => drive(&engine::props_write::c11(), args),
         "C12" => drive(&engine::c12::C12, args),
         "C13" => drive(&engine::c13::C13, args),
-        "C14" => drive(&engine::props_misc::c14(), args),
+        "C14" => drive(&engine::props_misc::c14_engine(), args),
         "C15" => drive(&engine::c15::C15, args),
         "C16" => drive(&engine::props_write::c16(), args),
         "C17" => drive(&engine::c17::C17, args),
